@@ -106,6 +106,7 @@ type Unit struct {
 	NAssumeCalls int
 	inInit   bool
 	cellByID map[int]*Cell
+	divMemo  map[string]divEntry
 	paramVals []Val
 	inputArr map[string]*Term
 	symIdxCells map[int]*ListObj
@@ -115,6 +116,11 @@ type Unit struct {
 	TrivialSafety int
 	initCells int
 	nerr     int
+}
+
+type divEntry struct {
+	q, r  *Term
+	scope int
 }
 
 // InputLeaf records a symbolic input for model extraction.
@@ -143,6 +149,7 @@ func NewUnit(p *Program, target *ssa.Function, cfg Config) *Unit {
 	u.uf = map[string]bool{}
 	u.litArr = map[string]*Term{}
 	u.cellByID = map[int]*Cell{}
+	u.divMemo = map[string]divEntry{}
 	u.inputArr = map[string]*Term{}
 	u.symIdxCells = map[int]*ListObj{}
 	u.HavocLoops = map[string]int{}
